@@ -104,8 +104,8 @@ PROPS = {
                 technique='postconditions over the transcript state machine on Transcript::*, pow commit, generate_queries',
                 note='Not decided: agreement with challenges logged by the prover (recorded data); "changes when a message changes" relies on hash injectivity (idealised).'),
     'C09': dict(quick=['core'], thorough=['core'],
-                claim='verify_pow is proved to accept exactly when be_nat(H(H(magic||digest||n)||nonce)[0..16]) < 2^(128-n); Config::validate accepts exactly 20..=50; commit checks the pre-state digest and absorbs the nonce only on success.',
-                technique='exact (<=>) postconditions on verify_pow, pow::Config::validate, UnsentCommitment::commit',
+                claim='verify_pow is proved to accept exactly when H(H(0x0123456789abcded||digest||n)||nonce) STARTS WITH n ZERO BITS (bit-level definition: bit i = bit 7-(i mod 8) of byte i div 8), through the machine-checked lemma that this is the comparison the code performs, be_nat(hash[0..16]) < 2^(128-n); Config::validate accepts exactly 20..=50; commit checks the pre-state digest and absorbs the nonce only on success.',
+                technique='exact (<=>) postconditions on verify_pow, pow::Config::validate, UnsentCommitment::commit; verified lemmas lemma_byte, lemma_leading_zero_bits, lemma_threshold_is_zero_bits (templates/pow_bits.rs)',
                 note='H is an uninterpreted function of the byte string for each hash feature.'),
     'C10': dict(quick=['core'], thorough=['core'],
                 claim='generate_queries is proved to return a strictly increasing, in-range sequence of at most n indices whose set is exactly the sampled set (a spec function of the transcript); queries_to_points maps index q to 3*w^bitreverse_k(q) and errors instead of panicking.',
@@ -116,9 +116,9 @@ PROPS = {
                 technique='exact (<=>) postconditions with loop invariant on fri::Config::validate, StarkConfig::validate, trace/vector/pow Config::validate',
                 note=''),
     'C12': dict(quick=['core'], thorough=['core'],
-                claim='StarkDomains::new is proved to return sizes 2^(t+c), 2^t and generators 3^((P-1)/2^k); verified number-theory lemmas show gen(k)^(2^k)=1, gen(k)^(2^j)!=1 for j<k (order exactly 2^k) and trace_generator = eval_generator^(2^c), for all t+c<=192.',
+                claim='StarkDomains::new is proved to return sizes 2^(t+c), 2^t and generators 3^((P-1)/2^k); verified number-theory lemmas show gen(k)^(2^k)=1, gen(k)^(2^j)!=1 for j<k, hence (lemma_order_exactly_pow2, by halving induction) that 2^k is the LEAST positive exponent giving 1: is_order(eval_generator, 2^(t+c)), is_order(trace_generator, 2^t); and trace_generator = eval_generator^(2^c), for all t+c<=192.',
                 technique='postcondition on StarkDomains::new + machine-checked lemmas (pow laws, 2-adic structure of P-1, compute_only for 3^(P-1), 3^((P-1)/2))',
-                note='That "h^(2^k)=1 and h^(2^j)!=1 for all j<k" characterises order 2^k is textbook and stated, not mechanised.'),
+                note='P prime enters only through the trusted field axioms (A-felt); the order statement itself needs no primality.'),
 }
 
 _LIGHT = ['layout_' + _l for _l in LIGHT_LAYOUTS]
@@ -148,6 +148,14 @@ PROPS['C19'] = dict(quick=['cli'], thorough=['cli'],
 _MID = ['layoutmid_' + _l for _l in MID_LAYOUTS]
 PROPS['C14']['quick'] = ['core'] + _MID
 PROPS['C14']['thorough'] = ['core'] + _MID
+
+# quick tier: code that is selected by hash / Stone features is ALSO checked under the other features on every change
+# (a change inside a cfg-false branch would otherwise be invisible to the quick check): the variant units verify only the
+# modules that carry an obligation of the property, so this costs seconds
+for _p in ('C04', 'C05'):
+    PROPS[_p]['quick'] = list(dict.fromkeys(PROPS[_p]['quick'] + VARIANTS))
+PROPS['C09']['quick'] = list(dict.fromkeys(PROPS['C09']['quick'] + ['core_blake2s_160_lsb_stone6']))
+PROPS['C13']['quick'] = list(dict.fromkeys(PROPS['C13']['quick'] + ['core_keccak_160_lsb_stone6']))
 
 # thorough tier: every hash / stone variant of the core unit for the properties whose code is cfg-dependent
 for _p in ('C01', 'C02', 'C04', 'C05', 'C07', 'C09', 'C13', 'C17', 'C18'):
